@@ -145,13 +145,21 @@ pub fn malform(r: &mut Rng, e: &mut EchoReq) -> Option<String> {
                     9 => (replace_field(&text, "e", "\"Purple\""), "json unknown enum".into()),
                     10 => (replace_field(&text, "b", "\"true\""), "json bool as string".into()),
                     _ => {
-                        let mut b = replace_field(&text, "b", "\"\u{1}\"");
-                        for x in b.iter_mut() {
-                            if *x == 1 {
-                                *x = 0xff;
+                        // ill-formed UTF-8 inside a *string-typed* field of an
+                        // otherwise valid document (a lone Latin-1 byte, 0xFF,
+                        // an overlong form, an encoded surrogate, a truncated
+                        // sequence)
+                        let bad: &[u8] = *r.pick(&[&[0xe9u8][..], &[0xff], &[0xc0, 0xaf], &[0xed, 0xa0, 0x80], &[0xe4, 0xb8], &[0xf0, 0x9f, 0x98]]);
+                        let marked = replace_field(&text, "s", "\"ab\u{1}cd\"");
+                        let mut b = Vec::with_capacity(marked.len() + 4);
+                        for x in marked {
+                            if x == 1 {
+                                b.extend_from_slice(bad);
+                            } else {
+                                b.push(x);
                             }
                         }
-                        (b, "json invalid utf-8".into())
+                        (b, "json invalid utf-8 in a string value".into())
                     }
                 };
                 if nb == body {
